@@ -96,7 +96,7 @@ class FixFlaskConfig(BaseTransformer, NameResolutionMixin):
 
     def __init__(self, codemod_context: CodemodContext, file_context: FileContext):
         super().__init__(
-            codemod_context, [], file_context.line_include, file_context.line_exclude
+            codemod_context, None, file_context.line_include, file_context.line_exclude
         )
         self.flask_app_name = ""
         # Later: if we want to store configs to write later
@@ -132,7 +132,11 @@ class FixFlaskConfig(BaseTransformer, NameResolutionMixin):
         if self.find_base_name(original_node.func) == "flask.Flask":
             self._store_flask_app(original_node)
 
-        if self.flask_app_is_assigned and self._is_config_update_call(original_node):
+        if (
+            self.flask_app_is_assigned
+            and self._is_config_update_call(original_node)
+            and self.node_is_selected(original_node)
+        ):
             return self.call_node_with_secure_configs(original_node, updated_node)
         return updated_node
 
@@ -158,7 +162,11 @@ class FixFlaskConfig(BaseTransformer, NameResolutionMixin):
         return updated_node.with_changes(args=new_args)
 
     def leave_Assign(self, original_node: cst.Assign, updated_node: cst.Assign):
-        if self.flask_app_is_assigned and self._is_config_subscript(original_node):
+        if (
+            self.flask_app_is_assigned
+            and self._is_config_subscript(original_node)
+            and self.node_is_selected(original_node)
+        ):
             return self.assign_node_with_secure_config(original_node, updated_node)
         return updated_node
 
